@@ -629,7 +629,7 @@ func init() {
 		return rcaseA(kind, r, pre, hasPre, depth, alpha)
 	}
 	register("C17", &Prop{
-		Timeout:          20 * time.Second,
+		Timeout:          90 * time.Second, // generous: a batched line / 2x20000 concurrent rounds under a heavily loaded machine
 		NoRestartOnPanic: true,
 		Setup:            c17Setup,
 		Gen: func(g *Gen) {
